@@ -163,7 +163,8 @@ func runC19(ci interface{}, st *CaseStats) error {
 		}
 		return Pass
 	}
-	b := NewTestBackend(shim, BackendOpts{CacheSize: 64, Etcd: true})
+	// a small event cache wraps quickly (watches that start inside it read slots the sequencer is about to reuse)
+	b := NewTestBackend(shim, BackendOpts{CacheSize: []int{4, 8, 64}[len(c.Workers)%3], Etcd: true})
 	defer func() {
 		StopBackend(b)
 		time.Sleep(time.Millisecond)
@@ -251,17 +252,36 @@ func runC19(ci interface{}, st *CaseStats) error {
 					}
 				}
 			case "watcher":
-				for i := 0; i < w.N/10+1; i++ {
+				for i := 0; i < w.N*2; i++ {
 					wctx, cancel := context.WithCancel(ctx)
-					ch, err := b.Watch(wctx, Prefix+"/p/", uint64((w.Seed+i)%2)*(b.GetCurrentRevision()+1))
+					// start revisions: 0, above current, or inside the (small, wrapping) event cache
+					var start uint64
+					cur := b.GetCurrentRevision()
+					switch (w.Seed + i) % 4 {
+					case 0:
+						start = 0
+					case 1:
+						start = cur + 1
+					default:
+						back := uint64((w.Seed*7 + i) % 8)
+						if cur > InitRev+back {
+							start = cur - back
+						} else {
+							start = InitRev + 1
+						}
+					}
+					ch, err := b.Watch(wctx, Prefix+"/p/", start)
 					if err == nil {
-						to := time.After(time.Duration(1+w.Seed%5) * time.Millisecond)
+						to := time.After(time.Duration(50+(w.Seed+i)%400) * time.Microsecond)
 					drain:
 						for {
 							select {
-							case _, ok := <-ch:
+							case evs, ok := <-ch:
 								if !ok {
 									break drain
+								}
+								for _, e := range evs { // read what was delivered, as a client would
+									_ = e.Revision
 								}
 							case <-to:
 								break drain
